@@ -23,6 +23,7 @@ REQUIRED_THEOREMS = [
     "C17_map_score_meaning", "C17_window_weights", "C17_cache_coherent", "C17_windowed_is_convex_combination",
     "C17_history_is_recent_calls", "C17_stored_count", "C17_stored_fixed_window", "C17_map_without_args_unavailable",
     "C17_extract_value", "C17_set_window_spec", "C17_windowed_extract_end_to_end", "C17_min_calls_window_refuted",
+    "C17_mean_circular_on_circle", "C17_windowed_circular_on_circle", "C17_move_target_is_source", "C17_moved_from_out_of_scope",
 ]
 RULE = ("operation sequences on one object; kind est: ops from {extract/2, extract/5, setMethod(12 methods), "
         "setMobileAverageWindowSize(w in {-1,0,1,2,3,5,29,30,31,100} and 2..8), clear}, particle sets N in 1..20 with "
@@ -43,7 +44,13 @@ TRUSTED_BASE = ["Coq 8.16.1 kernel (coqc); list/nat theorems closed under the gl
                 "IEEE rounding is not modelled (theorems over R); std::exp/log/sin/cos/atan2 are taken as the real functions"]
 ASSUMPTIONS = ["particles has linear+circular rows and as many columns as weights has entries (likelihoods, transition rows likewise); "
                "objects are not used after being moved from",
-               "Eigen maxCoeff(&i) reports the first maximum (checked on every mode/map case through the relational oracle)"]
+               "Eigen maxCoeff(&i) reports the FIRST maximum (its visitor moves on strictly greater values only): checked by index, "
+               "against the model's first maximiser, on every mode/map case including the exact-tie cases (flavour ties, tag tie)",
+               "zero weights (log-weight -inf) are the limit of the theorems' positive weights: covered by correspondence and the numpy oracle only; "
+               "a previous-weight vector that is entirely -inf makes every coded map score NaN (not a normalised weight vector: outside the property, "
+               "correspondence only)",
+               "move construction / assignment: the target is the source state (C17_move_target_is_source, exercised by the mv / ma operations); "
+               "using the moved-from object (window 0, C17_moved_from_out_of_scope) is out of scope"]
 
 METHODS = ["mean", "smean", "wmean", "emean", "mode", "smode", "wmode", "emode", "map", "smap", "wmap", "emap"]
 STAT = {m: ("mean" if "mean" in m else "mode" if "mode" in m else "map") for m in METHODS}
@@ -69,7 +76,8 @@ def win_weights(v, n):
 
 
 def wmean(P, w, lin, circ):
-    """Weighted mean of the columns of P with linear-domain weights w: (values, resultant length per circular row)."""
+    """Weighted mean of the columns of P with linear-domain weights w: (values, per circular row the length of the
+    resultant relative to the total weight = the conditioning of the directional mean; inf for a single column)."""
     d = lin + circ
     out, res = np.zeros(d), []
     if lin:
@@ -79,7 +87,8 @@ def wmean(P, w, lin, circ):
             out[r] = P[r, 0]; res.append(math.inf)
         else:
             s, c = float(w @ np.sin(P[r])), float(w @ np.cos(P[r]))
-            out[r] = math.atan2(s, c); res.append(math.hypot(s, c))
+            tot = float(np.sum(np.abs(w)))
+            out[r] = math.atan2(s, c); res.append(math.hypot(s, c) / tot if tot > 0 else 0.0)
     return out, res
 
 
@@ -94,6 +103,7 @@ def circ_diff(a, b):
 
 
 NEAR_BOUNDARY_SKIPPED = 0
+OUTSIDE_PROPERTY = 0
 
 
 def vec_close(a, b, lin, res, scale, tol=1e-10):
@@ -121,24 +131,38 @@ def vec_close(a, b, lin, res, scale, tol=1e-10):
 
 # ------------------------------------------------------------------ generators
 
-def norm_logw(rng, n, peaked=False):
+def norm_logw(rng, n, peaked=False, zeros=False, ties=False, unnormalised=False):
+    """Log-weights.  Default: normalised, unique maximum.  zeros: some weights exactly 0 (log-weight -inf);
+    ties: the maximum is attained several times (exactly); unnormalised: the weights do not sum to one
+    (outside the property's premise: correspondence and the un-normalised clauses only)."""
     while True:
         if peaked:
             w = np.array([10 ** rng.uniform(-12, 0) for _ in range(n)])
         else:
             w = np.array([rng.random() + 0.05 for _ in range(n)])
+        if zeros and n > 1:
+            for j in rng.sample(range(n), rng.randint(1, n - 1)):
+                w[j] = 0.0
+        if ties and n > 1:
+            top = 2.0 * float(w.max())
+            for j in rng.sample(range(n), rng.randint(2, min(n, 4))):
+                w[j] = top
         w = w / w.sum()
+        if unnormalised:
+            w = w * 10 ** rng.uniform(-3, 2)
         s = np.sort(w)
-        if n == 1 or (s[-1] - s[-2]) > 1e-6 * s[-1]:
-            return np.log(w)
+        if n == 1 or ties or (s[-1] - s[-2]) > 1e-6 * s[-1]:
+            with np.errstate(divide="ignore"):
+                return np.log(w)
 
 
 class EstGen:
-    """Draws the operands of extract calls for one case: every circular row is clustered around a per-case centre,
-    so that directional means (of particles and of the stored estimates) are well conditioned."""
+    """Draws the operands of extract calls for one case.  By default every circular row is clustered around a
+    per-case centre, so that directional means (of particles and of the stored estimates) are well conditioned;
+    `cancel` makes the phasors of a particle set nearly cancel (pairs a, a + pi - delta with equal weights)."""
 
-    def __init__(self, rng, lin, circ):
-        self.rng, self.lin, self.circ = rng, lin, circ
+    def __init__(self, rng, lin, circ, flavour="plain", big=0.0):
+        self.rng, self.lin, self.circ, self.flavour, self.big = rng, lin, circ, flavour, big
         self.scale = 10 ** rng.uniform(-1, 2)
         self.centre = [rng.uniform(-math.pi, math.pi) for _ in range(circ)]
         self.spread = rng.choice([0.05, 0.5, 1.0])
@@ -152,35 +176,71 @@ class EstGen:
             P[self.lin + r] = self.centre[r] + g.uniform(-self.spread, self.spread, n) + TWO_PI * self.wrapk
         return P
 
+    def draw_n(self):
+        rng = self.rng
+        u = rng.random()
+        if u < 0.45:
+            return rng.choice([1, 1, 2, 3, 5, 8, 13, 20])
+        if u < 1.0 - self.big:
+            return rng.randint(1, 20)
+        return rng.randint(21, 200)
+
     def extract_operands(self, c, k, five):
         rng = self.rng
-        n = rng.choice([1, 1, 2, 3, 5, 8, 13, 20]) if rng.random() < 0.5 else rng.randint(1, 20)
+        n = self.draw_n()
         P = self.particles(n)
-        W = norm_logw(rng, n, peaked=rng.random() < 0.2)
+        fl = self.flavour
+        u = rng.random()
+        W = norm_logw(rng, n, peaked=u < 0.2, zeros=(fl == "zeros" and rng.random() < 0.7),
+                      ties=(fl == "ties" and rng.random() < 0.7), unnormalised=(fl == "unnormalised"))
+        if fl == "cancel" and self.circ and n >= 2 and rng.random() < 0.7:
+            # pairs of opposite phasors with equal weights: resultant of the order of delta
+            delta = 10 ** rng.uniform(-7, -1)
+            h = n // 2
+            w = np.exp(W)
+            for r in range(self.circ):
+                P[self.lin + r, h:2 * h] = P[self.lin + r, :h] + math.pi - delta
+            w[h:2 * h] = w[:h]
+            if n % 2:
+                w[-1] = w[:-1].sum() * 10 ** rng.uniform(-9, -3)
+            W = np.log(w / w.sum())
         c.mat_shape("P%d" % k, self.lin + self.circ, n, P)
         c.mat_shape("W%d" % k, n, 1, W)
         if five:
-            m = n if rng.random() < 0.8 else rng.randint(1, 20)
+            m = n if (rng.random() < 0.8 and n <= 40) else rng.randint(1, 20)
             g = gen.nprng(rng)
             for _ in range(100):
-                PW = norm_logw(rng, m)
+                PW = norm_logw(rng, m, zeros=(fl == "zeros" and rng.random() < 0.5), unnormalised=(fl == "unnormalised"))
+                if fl == "zeros" and rng.random() < 0.1:
+                    PW = np.full(m, -math.inf)      # all previous weights zero: log_sum_exp is NaN (outside the property)
                 L = g.uniform(0.0, 1.0, n) * 10 ** rng.uniform(-3, 1)
                 T = g.uniform(0.0, 1.0, (n, m))
                 if rng.random() < 0.3:
                     L[g.uniform(size=n) < 0.2] = 0.0
                     T[g.uniform(size=(n, m)) < 0.2] = 0.0
+                if fl == "ties" and n > 1 and rng.random() < 0.7:
+                    L[:] = 1.0; T[:, :] = 0.25
+                    for j in rng.sample(range(n), rng.randint(2, min(n, 4))):
+                        L[j] = 2.0
+                    break
                 sc = np.sort(map_scores(PW, L, T))
-                if n == 1 or (sc[-1] - sc[-2]) > 1e-6 * sc[-1]:
+                if n == 1 or not np.isfinite(PW).any() or (sc[-1] - sc[-2]) > 1e-6 * sc[-1]:
                     break
             c.mat_shape("PW%d" % k, m, 1, PW)
             c.mat_shape("L%d" % k, n, 1, L)
             c.mat_shape("T%d" % k, n, m, T)
 
 
-def est_case(rng, cid, lin, circ, tokens, tag):
-    c = caseio.Case(cid, "est", {"lin": lin, "circ": circ, "tag": tag, "nops": len(tokens)})
+FLAVOURS = ["plain", "plain", "plain", "zeros", "ties", "unnormalised", "cancel"]
+
+
+def est_case(rng, cid, lin, circ, tokens, tag, flavour=None):
+    flavour = flavour or rng.choice(FLAVOURS)
+    if flavour == "cancel" and circ == 0:
+        flavour = "plain"
+    c = caseio.Case(cid, "est", {"lin": lin, "circ": circ, "tag": tag, "nops": len(tokens), "flavour": flavour})
     c.word("ops", tokens)
-    eg = EstGen(rng, lin, circ)
+    eg = EstGen(rng, lin, circ, flavour, big=(0.0 if tag == "exh" else 0.08))
     for k, o in enumerate(tokens):
         if o in ("e2", "e5"):
             eg.extract_operands(c, k, o == "e5")
@@ -198,11 +258,11 @@ def hb_case(rng, cid, d, tokens, tag):
 
 
 def tie_case(rng, cid):
-    """Exact ties in the weights / map scores, plain mode and map only: the returned particle is compared
-    relationally (any maximiser is accepted), never by index."""
+    """Exact ties in the weights / map scores: the model takes the FIRST maximiser (C17_mode_is_max,
+    C17_map_is_argmax) and so does Eigen's visitor (strict >): compared by index like every other case."""
     lin, circ = rng.randint(1, 3), rng.randint(0, 2)
     n = rng.choice([2, 3, 4, 5, 8, 9, 16, 17, 20])
-    c = caseio.Case(cid, "est", {"lin": lin, "circ": circ, "tag": "tie", "nops": 4})
+    c = caseio.Case(cid, "est", {"lin": lin, "circ": circ, "tag": "tie", "nops": 4, "flavour": "ties"})
     c.word("ops", ["m:mode", "e2", "m:map", "e5"])
     eg = EstGen(rng, lin, circ)
     P = eg.particles(n)
@@ -237,8 +297,10 @@ def rand_est_tokens(rng, maxlen):
             toks.append("e5" if rng.random() < 0.5 else "e2")
         elif u < 0.76:
             toks.append("m:" + rng.choice(METHODS))
-        elif u < 0.93:
+        elif u < 0.91:
             toks.append("w:%d" % rand_window(rng))
+        elif u < 0.95:
+            toks.append(rng.choice(["mv", "ma"]))
         else:
             toks.append("c")
     return toks[:maxlen]
@@ -255,8 +317,10 @@ def rand_hb_tokens(rng, maxlen):
             toks.append("s:%d" % rand_window(rng))
         elif u < 0.87:
             toks.append("d")
-        elif u < 0.94:
+        elif u < 0.92:
             toks.append("i")
+        elif u < 0.96:
+            toks.append(rng.choice(["mv", "ma"]))
         else:
             toks.append("c")
     return toks
@@ -269,6 +333,8 @@ def fill_tokens(rng, big, small, method):
 
 
 def shapes(rng):
+    if rng.random() < 0.15:
+        return rng.randint(0, 8), rng.randint(0, 5)      # more rows than any shipped filter uses
     return rng.randint(0, 3), rng.randint(0, 2)
 
 
@@ -284,6 +350,7 @@ def corpus(rng, add, cid0):
         ["s:4294967295", "s:4294967296", "s:5"],                  # unsigned wrap of the harness cast: 2^32 -> 0 -> clamp 2
         ["c", "a", "c", "c", "a", "a"],
         ["s:5", "a", "s:5", "a"],                                 # early return on an equal request
+        ["a", "a", "mv", "a", "s:2", "ma", "a", "a", "d", "mv", "c", "a"],   # the move target goes on as the source would
     ]
     for toks in hb:
         add(hb_case(rng, k, 2, toks, "corpus")); k += 1
@@ -296,9 +363,21 @@ def corpus(rng, add, cid0):
         (1, 2, ["w:0", "w:-1", "w:1", "e5", "e5", "e5", "w:31", "w:30", "w:100"]),
         (2, 2, ["m:mean", "e2", "m:mode", "e5", "m:smean", "e2", "m:mean", "e5", "m:smean", "e2"]),      # plain methods do not touch the history
         (0, 0, ["m:smean", "e2", "e5", "w:2", "e2"]),                         # empty state vector
+        (1, 1, ["m:wmean", "e2", "e2", "mv", "e2", "w:3", "ma", "e5", "m:smap", "mv", "e5", "c", "ma", "e5"]),  # moves
+        (5, 4, ["m:emean", "e5", "e5", "m:wmode", "e5", "w:2", "e5"]),        # more rows than 3 + 2
     ]
     for lin, circ, toks in est:
-        add(est_case(rng, k, lin, circ, toks, "corpus")); k += 1
+        add(est_case(rng, k, lin, circ, toks, "corpus", "plain")); k += 1
+    # exactly ONE stored estimate whose angle lies outside (-pi, pi]: a single particle at 7.0 / -9.5 rad
+    for meth in ("smean", "wmode", "emap"):
+        c = caseio.Case(k, "est", {"lin": 1, "circ": 2, "tag": "corpus", "nops": 5, "flavour": "single"})
+        c.word("ops", ["m:" + meth, "e5", "c", "e5", "e5"])
+        for j, n in ((1, 1), (3, 1), (4, 2)):
+            P = np.array([[1.5] * n, [7.0] * n, [-9.5] * n]) + (np.arange(n) * 0.01)
+            c.mat_shape("P%d" % j, 3, n, P); c.mat_shape("W%d" % j, n, 1, np.log(np.full(n, 1.0 / n)))
+            c.mat_shape("PW%d" % j, n, 1, np.log(np.full(n, 1.0 / n))); c.mat_shape("L%d" % j, n, 1, np.arange(1, n + 1))
+            c.mat_shape("T%d" % j, n, n, np.full((n, n), 0.5))
+        add(c); k += 1
 
 
 def generate(rng, tier):
@@ -425,20 +504,99 @@ def fields(c):
         out += ["ret%d" % k, "win%d" % k]
         if c.kind == "est":
             out += ["meth%d" % k]
+        if o in ("mv", "ma"):
+            out.append("movedfrom_win%d" % k)      # 0 by HistoryBuffer.cpp:24/35 (the moved-from object is otherwise out of scope)
     if c.kind == "est":
         out.append("info_window")
     return out
 
 
+def methods_before(c):
+    """the extraction method in force before every operation (a function of the tokens alone)"""
+    meth, out = "emode", []
+    for o in ops_of(c):
+        out.append(meth)
+        if o.startswith("m:"):
+            meth = o[2:]
+    return out
+
+
+def tolerances(c, rec):
+    """Comparison tolerances derived from the constructed conditioning.  Returns per operation
+    (est_tol or None, [tol of every stored column, newest first]) with tol = (linear absolute, circular absolute).
+    A base mean is conditioned by max|x| * sum(w) on linear rows and by 1/(relative resultant length) on circular
+    rows; mode/map estimates are copies of a particle (tolerance 0); a windowed estimate inherits the worst stored
+    column and adds the conditioning of the average over the history."""
+    toks, meths = ops_of(c), methods_before(c)
+    lin, circ = int(c.meta["lin"]), int(c.meta["circ"])
+    d = lin + circ
+    cols, out = [], []
+    for k, o in enumerate(toks):
+        est_tol = None
+        H = np.asarray(rec.get("hist%d" % k), float) if rec.has("hist%d" % k) else np.zeros((d, 0))
+        ncols = H.shape[1] if H.ndim == 2 else 0
+        if o in ("e2", "e5"):
+            meth = meths[k]; st, var = STAT[meth], VAR[meth]
+            W = colvec(c, "W%d" % k); P = opmat(c, "P%d" % k).reshape(d, W.size)
+            if st == "mean":
+                w = np.exp(W)
+                ls = max(1.0, float(np.max(np.abs(P[:lin]))) if lin else 1.0) * max(1.0, float(w.sum()))
+                res = wmean(P, w, lin, circ)[1]
+                cc = max([1.0] + [1.0 / max(r, 1e-300) for r in res])
+                base = (1e-11 * ls, 1e-10 * cc)
+            else:
+                base = (0.0, 0.0)
+            if st == "map" and o == "e2":
+                est_tol = None
+            elif var is None:
+                est_tol = base
+            else:
+                cols = ([base] + cols)[:ncols]
+                hl = max(1.0, float(np.max(np.abs(H[:lin]))) if lin and ncols else 1.0)
+                hc = 1.0
+                if ncols > 1 and H.shape[0] == d:
+                    res = wmean(H, win_weights(var, ncols), lin, circ)[1]
+                    hc = max([1.0] + [1.0 / max(r, 1e-300) for r in res])
+                worst_l = max([t[0] for t in cols] + [0.0]); worst_c = max([t[1] for t in cols] + [0.0])
+                est_tol = (1e-11 * hl + worst_l, (1e-10 + worst_c) * hc)
+        cols = cols[:ncols]
+        out.append((est_tol, list(cols)))
+    return out
+
+
+CORR_SKIPPED = 0
+
+
+def _cmp_vec(nm, a, b, lin, tol, diffs):
+    """one estimate / one stored column: linear rows absolutely, circular rows modulo 2 pi"""
+    global CORR_SKIPPED
+    ltol, ctol = tol
+    if lin and a[:lin].size:
+        dl = float(np.max(np.abs(a[:lin] - b[:lin]))) if np.all(np.isfinite(a[:lin])) and np.all(np.isfinite(b[:lin])) else (0.0 if np.array_equal(a[:lin], b[:lin], equal_nan=True) else math.inf)
+        if not (dl <= ltol):
+            diffs.append("%s: linear rows differ by %.3g (tol %.3g)" % (nm, dl, ltol))
+    if a[lin:].size:
+        if ctol > 1e-3:
+            CORR_SKIPPED += 1       # directional mean of nearly cancelling phasors: no meaningful comparison
+            return
+        dc = float(np.max(np.abs(circ_diff(a[lin:], b[lin:])))) if np.all(np.isfinite(a[lin:])) and np.all(np.isfinite(b[lin:])) else (0.0 if np.array_equal(a[lin:], b[lin:], equal_nan=True) else math.inf)
+        if not (dc <= ctol):
+            diffs.append("%s: circular rows differ by %.3g (mod 2pi, tol %.3g)" % (nm, dc, ctol))
+
+
 def compare(c, impl, model):
-    """Correspondence: every returned flag, the window, the method exactly; estimates, history columns and the cached
-    weight vectors numerically (circular rows modulo 2 pi)."""
+    """Correspondence: every returned flag, the window, the method exactly (ties included: the model's first
+    maximiser is what Eigen's visitor returns); estimates and history columns within the tolerance derived from the
+    case's conditioning (circular rows modulo 2 pi); cached weight vectors to 1e-12; a directly driven HistoryBuffer
+    and every mode/map estimate bit for bit."""
     diffs = caseio.compare_fields(impl, model, fields(c), 0, 0)
     toks = ops_of(c)
-    lin = int(c.meta.get("lin", c.meta.get("d", 0))) if c.kind == "est" else int(c.meta["d"])
+    est_kind = c.kind == "est"
+    lin = int(c.meta["lin"]) if est_kind else int(c.meta["d"])
+    tols = tolerances(c, impl) if est_kind else None
     for k, o in enumerate(toks):
         names = ["hist%d" % k]
-        if c.kind == "est":
+        if est_kind:
             names += ["smw%d" % k, "wmw%d" % k, "emw%d" % k]
             if o in ("e2", "e5"):
                 names.append("est%d" % k)
@@ -457,20 +615,22 @@ def compare(c, impl, model):
                 good = sc > 1e-290
                 if mv.shape != sc.shape or not caseio.close(mv[good], np.log(sc[good]), 1e-9, 0):
                     diffs.append("spec_mapvalues%d: coded score differs from log of the product form" % k)
-            if nm.startswith("est") and impl.get("ret%d" % k) == 0:
-                continue    # no estimate available: the content of the returned vector is not specified
-            if nm.startswith("est") and c.meta.get("tag") == "tie":
-                continue    # exact ties: any maximiser is right; decided by the relational oracle, not by index
             if nm.startswith(("smw", "wmw", "emw")):
                 if not caseio.close(a, b, 1e-12, 1e-12):
                     diffs.append("%s: max|impl-model|=%.3g" % (nm, caseio.maxdiff(a, b)))
                 continue
-            # estimates / history: rows >= lin are angles
-            scale = max(1.0, float(np.max(np.abs(a[:lin]))) if lin and a[:lin].size else 1.0)
-            dl = np.abs(a[:lin] - b[:lin]).max() if lin and a[:lin].size else 0.0
-            dc = np.abs(circ_diff(a[lin:], b[lin:])).max() if a[lin:].size else 0.0
-            if not (dl <= 1e-11 * scale) or not (dc <= 1e-7):
-                diffs.append("%s: linear rows differ by %.3g (tol %.3g), circular rows by %.3g (mod 2pi, tol 1e-7)" % (nm, dl, 1e-11 * scale, dc))
+            if not est_kind:
+                if not np.array_equal(a, b):
+                    diffs.append("%s: stored elements differ" % nm)
+                continue
+            est_tol, col_tols = tols[k]
+            if nm.startswith("est"):
+                if impl.get("ret%d" % k) == 0 or est_tol is None:
+                    continue    # no estimate available: the content of the returned vector is not specified
+                _cmp_vec(nm, a.reshape(-1), b.reshape(-1), lin, est_tol, diffs)
+            else:
+                for j in range(a.shape[1]):
+                    _cmp_vec("%s[:,%d]" % (nm, j), a[:, j], b[:, j], lin, col_tols[j] if j < len(col_tols) else (0.0, 0.0), diffs)
     return diffs
 
 
@@ -492,7 +652,7 @@ def oracle(c, impl, model):
     circ = int(c.meta["circ"]) if est_kind else 0
     d = lin + circ
     win, hist, meth = 5, np.zeros((d, 0)), "emode"
-    caches = {"s": np.zeros(0), "w": np.zeros(0), "e": np.zeros(0)}
+    caches = {"smw": np.zeros(0), "wmw": np.zeros(0), "emw": np.zeros(0)}
 
     def bad(sig, detail, k):
         v.append(("C17:" + sig, "op %d (%s): %s" % (k, toks[k], detail)))
@@ -541,6 +701,16 @@ def oracle(c, impl, model):
             exp_hist = np.hstack([x.reshape(-1, 1), hist])[:, :win]
             if nwin != win or not np.array_equal(nhist, exp_hist):
                 bad("add-pushes-front", "window %d, %d stored before: %d after, expected %d with the new element first" % (win, stored, nhist.shape[1], exp_hist.shape[1]), k)
+        elif o in ("mv", "ma"):
+            # the move target goes on exactly as the source was (the moved-from object is out of scope)
+            same = ret == 1 and nwin == win and np.array_equal(nhist, hist)
+            if est_kind:
+                same = same and impl.get("meth%d" % k) == METHODS.index(meth)
+                for nmc in ("smw", "wmw", "emw"):
+                    cur = np.asarray(impl.get("%s%d" % (nmc, k)), float).reshape(-1)
+                    same = same and np.array_equal(cur, caches[nmc])
+            if not same:
+                bad("move:target-differs-from-source", "window %d -> %d, %d -> %d stored, or method / cached weights changed" % (win, nwin, stored, nhist.shape[1]), k)
         elif est_kind and o.startswith("m:"):
             if impl.get("meth%d" % k) != METHODS.index(o[2:]):
                 bad("set-method", "method index %s" % impl.get("meth%d" % k), k)
@@ -551,7 +721,7 @@ def oracle(c, impl, model):
             P = opmat(c, "P%d" % k).reshape(d, W.size)
             est = np.asarray(impl.get("est%d" % k), float).reshape(-1) if impl.has("est%d" % k) else None
             st, var = STAT[meth], VAR[meth]
-            scale = max(1.0, float(np.max(np.abs(P[:lin]))) if lin else 1.0)
+            scale = max(1.0, float(np.max(np.abs(P[:lin]))) if lin else 1.0) * max(1.0, float(np.exp(W).sum()))
             if est is None or est.size != d:
                 bad("extract:estimate-size", "estimate has %s entries, state size %d" % (None if est is None else est.size, d), k)
             elif st == "map" and o == "e2":
@@ -577,17 +747,35 @@ def oracle(c, impl, model):
                         bad("mean:%s-rows" % ok, "base estimate differs from the weighted %s mean by %.3g" % ("arithmetic" if ok == "linear" else "circular", worst), k)
                     base = target
                 else:
+                    global OUTSIDE_PROPERTY
                     idx = _col_index(P, target)
+                    degenerate = st == "map" and not np.any(np.isfinite(colvec(c, "PW%d" % k)))
                     if not idx:
                         bad("%s:not-a-particle" % st, "the base estimate is not a column of the particle set", k)
+                    elif degenerate:
+                        OUTSIDE_PROPERTY += 1     # all previous weights zero: every coded score is NaN; correspondence only
                     else:
                         score = W if st == "mode" else map_scores(colvec(c, "PW%d" % k), colvec(c, "L%d" % k), opmat(c, "T%d" % k).reshape(W.size, colvec(c, "PW%d" % k).size))
                         best = float(np.max(score))
                         got = max(float(score[j]) for j in idx)
-                        margin = 1e-12 if st == "mode" else 1e-9 * abs(best)
+                        margin = 0.0 if st == "mode" else 1e-9 * abs(best)
                         if got < best - margin:
                             bad("%s:not-a-maximiser" % st, "returned particle %s has score %.17g, the maximum is %.17g (particle %d)" % (idx, got, best, int(np.argmax(score))), k)
+                        else:
+                            # C17_mode_is_max / C17_map_is_argmax: among equal maxima the FIRST one (Eigen's visitor uses >).
+                            # mode: the log-weights themselves; map: the coded scores as the extracted model computes them
+                            coded = W if st == "mode" else (np.asarray(model.get("spec_mapvalues%d" % k), float).reshape(-1) if model is not None and model.has("spec_mapvalues%d" % k) else None)
+                            if coded is not None and coded.size == P.shape[1] and not np.any(np.isnan(coded)):
+                                first = int(np.argmax(coded))
+                                if len(idx) == 1 and idx[0] != first and coded[idx[0]] == coded[first]:
+                                    bad("%s:not-first-maximiser" % st, "particles %d and %d tie at %.17g: particle %d returned, the first maximiser is %d" % (first, idx[0], float(coded[first]), idx[0], first), k)
                     base = target
+                # ---- circular rows live on the circle: (-pi, pi] from two columns on; one column is returned as it is
+                if circ and var is None and st == "mean":
+                    if P.shape[1] >= 2 and not np.all((est[lin:] > -math.pi - 1e-15) & (est[lin:] <= math.pi + 1e-15)):
+                        bad("circular-out-of-range:mean", "circular mean of %d particles outside (-pi, pi]: %s" % (P.shape[1], est[lin:]), k)
+                    if P.shape[1] == 1 and not np.array_equal(est[lin:], P[lin:, 0]):
+                        bad("single-column-not-as-is:mean", "one particle: %s returned for %s" % (est[lin:], P[lin:, 0]), k)
                 if var is None:
                     if nwin != win or not np.array_equal(nhist, hist):
                         bad("plain-extract:frame", "a non-windowed extract changed the history or the window", k)
@@ -617,6 +805,10 @@ def oracle(c, impl, model):
                                 wok = False; bad("window-weights-increase-with-age:%s" % var, "weights %s (newest first)" % ww, k)
                             if var == "s" and not caseio.close(ww, np.full(n, 1.0 / n), 1e-14, 0):
                                 wok = False; bad("window-weights-not-equal:s", "simple weights %s" % ww, k)
+                        if circ and n >= 2 and not np.all((est[lin:] > -math.pi - 1e-15) & (est[lin:] <= math.pi + 1e-15)):
+                            bad("circular-out-of-range:windowed", "%d stored: circular output outside (-pi, pi]: %s" % (n, est[lin:]), k)
+                        if circ and n == 1 and not np.array_equal(est[lin:], nhist[lin:, 0]):
+                            bad("single-column-not-as-is:windowed", "one stored estimate: %s returned for %s" % (est[lin:], nhist[lin:, 0]), k)
                         # ---- the estimate is that convex combination of the stored estimates
                         if wok:
                             spec, sres = wmean(nhist, ww, lin, circ)
@@ -626,6 +818,10 @@ def oracle(c, impl, model):
                                 bad("windowed-not-convex-combination:%s:%s:%s-rows" % (var, phase, ok), "method %s, %d stored (window %d): estimate differs from the %s average of the stored estimates by %.3g" % (meth, n, win, nm, worst), k)
         # post-state as observed
         win, hist = nwin, nhist
+        if est_kind:
+            for nmc in caches:
+                if impl.has("%s%d" % (nmc, k)):
+                    caches[nmc] = np.asarray(impl.get("%s%d" % (nmc, k)), float).reshape(-1)
         if est_kind and impl.has("meth%d" % k):
             mi = impl.get("meth%d" % k)
             meth = METHODS[mi] if 0 <= mi < 12 else meth
@@ -647,13 +843,16 @@ def on_crash(c, info, model):
 
 def histogram(cases):
     h = {"kind": {}, "tag": {}, "ops": {}, "max_stored": {}, "shrunk_nonempty": 0, "state_shape": {},
-         "near_boundary_skipped": NEAR_BOUNDARY_SKIPPED,
+         "near_boundary_skipped": NEAR_BOUNDARY_SKIPPED, "correspondence_skipped_ill_conditioned": CORR_SKIPPED,
+         "map_calls_outside_property_all_previous_weights_zero": OUTSIDE_PROPERTY, "flavour": {},
          # informational: sequences on which the literal count min(calls since clear, window) is not the stored count
          # (always after a window change, see C17_min_calls_window_refuted); the exact count is what the oracle checks
          "stored_differs_from_min_calls_window": 0}
     for c in cases:
         h["kind"][c.kind] = h["kind"].get(c.kind, 0) + 1
         h["tag"][c.meta.get("tag", "")] = h["tag"].get(c.meta.get("tag", ""), 0) + 1
+        if c.kind == "est":
+            h["flavour"][c.meta.get("flavour", "")] = h["flavour"].get(c.meta.get("flavour", ""), 0) + 1
         for o in ops_of(c):
             key = o.split(":")[0]
             h["ops"][key] = h["ops"].get(key, 0) + 1
